@@ -4,13 +4,13 @@ from ..core import ob, rule, where
 
 # writer-only types and the type whose reader is documented to read them back
 WRITER_ONLY = {
-    "&[$0]": "std::vec::Vec<$0>",
-    "[$0]": "std::vec::Vec<$0>",
-    "std::boxed::Box<[$0]>": "std::boxed::Box<[$0]>",
-    "std::sync::Arc<[$0]>": "std::sync::Arc<[$0]>",
-    "str": "std::string::String",
-    "&str": "std::string::String",
-    "&'a str": "std::string::String",
+    "&[$0]": "alloc::vec::Vec<$0>",
+    "[$0]": "alloc::vec::Vec<$0>",
+    "alloc::boxed::Box<[$0]>": "alloc::boxed::Box<[$0]>",
+    "alloc::sync::Arc<[$0]>": "alloc::sync::Arc<[$0]>",
+    "str": "alloc::string::String",
+    "&str": "alloc::string::String",
+    "&'a str": "alloc::string::String",
 }
 
 
